@@ -4,6 +4,7 @@ package harness
 // (so that segments and tombstones exist) applied to a drawn configuration.
 
 import (
+	"fmt"
 	"time"
 
 	"github.com/blevesearch/bleve/v2"
@@ -34,6 +35,28 @@ type CorpusOpts struct {
 	Doc      DocGenOpts
 	Mapping  func() mapping.IndexMapping
 	MinDocs  int
+	IDs      []string // document id pool (default DocIDs)
+	MaxOps   int      // operations per batch (default 5)
+}
+
+// BigDocIDs: a larger id pool for corpora in which clause cursors have room to overtake each other.
+var BigDocIDs = func() []string {
+	var ids []string
+	for i := 0; i < 24; i++ {
+		ids = append(ids, fmt.Sprintf("e%02d", i))
+	}
+	return ids
+}()
+
+// GenBig turns the options into a big-corpus variant in one case out of three.
+func (o CorpusOpts) GenBig(t *rapid.T) CorpusOpts {
+	if rapid.IntRange(0, 2).Draw(t, "bigcorpus") == 0 {
+		o.IDs, o.MaxOps = BigDocIDs, 8
+		if o.MaxSteps < 12 {
+			o.MaxSteps = 12
+		}
+	}
+	return o
 }
 
 func genCorpusSteps(t *rapid.T, cfg Config, o CorpusOpts) []c01Step {
@@ -43,9 +66,9 @@ func genCorpusSteps(t *rapid.T, cfg Config, o CorpusOpts) []c01Step {
 		c := rapid.IntRange(0, 19).Draw(t, "step")
 		switch {
 		case c < 12:
-			steps = append(steps, c01Step{Kind: "batch", Ops: genDataBatch(t, "b", 5, o.Doc)})
+			steps = append(steps, c01Step{Kind: "batch", Ops: genDataBatch(t, "b", o.maxOps(), o)})
 		case c < 15:
-			steps = append(steps, c01Step{Kind: "single", Ops: genDataBatch(t, "s", 1, o.Doc)})
+			steps = append(steps, c01Step{Kind: "single", Ops: genDataBatch(t, "s", 1, o)})
 		case c < 16 && cfg.OnDisk():
 			steps = append(steps, c01Step{Kind: "reopen"})
 		case c < 19 && cfg.Engine == EngScorchDisk:
@@ -53,18 +76,30 @@ func genCorpusSteps(t *rapid.T, cfg Config, o CorpusOpts) []c01Step {
 			// postings) that freshly indexed ones rarely have
 			steps = append(steps, c01Step{Kind: "merge"})
 		default:
-			steps = append(steps, c01Step{Kind: "batch", Ops: genDataBatch(t, "b", 5, o.Doc)})
+			steps = append(steps, c01Step{Kind: "batch", Ops: genDataBatch(t, "b", o.maxOps(), o)})
 		}
 	}
 	return steps
 }
 
 // genDataBatch: index/delete ops only, indexing weighted 3:1 so corpora are not empty.
-func genDataBatch(t *rapid.T, label string, maxOps int, o DocGenOpts) []Op {
+func (o CorpusOpts) maxOps() int {
+	if o.MaxOps > 0 {
+		return o.MaxOps
+	}
+	return 5
+}
+
+func genDataBatch(t *rapid.T, label string, maxOps int, co CorpusOpts) []Op {
+	o := co.Doc
+	pool := co.IDs
+	if pool == nil {
+		pool = DocIDs
+	}
 	n := rapid.IntRange(1, maxOps).Draw(t, label+".nops")
 	ops := make([]Op, 0, n)
 	for i := 0; i < n; i++ {
-		id := rapid.SampledFrom(DocIDs).Draw(t, label+".id")
+		id := rapid.SampledFrom(pool).Draw(t, label+".id")
 		if rapid.IntRange(0, 3).Draw(t, label+".del") == 0 {
 			ops = append(ops, Op{Kind: OpDelete, ID: id})
 		} else {
